@@ -35,7 +35,8 @@ pub const F_RESET_STORM: usize = 21;
 pub const F_DUP_STORM: usize = 22;
 pub const F_SOAK_LOOP: usize = 23;
 pub const F_CLOCK_TICK: usize = 24;
-pub const N_FAULTS: usize = 25;
+pub const F_ROLL_CALL: usize = 25;
+pub const N_FAULTS: usize = 26;
 pub const FAULT_NAMES: [&str; N_FAULTS] = [
     "drop",
     "dup",
@@ -62,6 +63,7 @@ pub const FAULT_NAMES: [&str; N_FAULTS] = [
     "dup-storm",
     "soak-loop",
     "clock-ticks-inside-calls(runs)",
+    "roll-call",
 ];
 
 /// Per-property weights. One world, shifted towards the property's subject.
@@ -285,6 +287,9 @@ pub fn draw_cfg(r: &mut Rng, p: &Preset) -> Cfg {
         }
         if r.chance(1, 10) {
             rate[F_SOAK_LOOP] = *r.pick(&[15u64, 40]);
+        }
+        if r.chance(1, 6) {
+            rate[F_ROLL_CALL] = 1;
         }
         if r.chance(1, 4) {
             rate[F_POLL_WRONG_CHANNEL] = *r.pick(&[20u64, 80]);
@@ -1034,6 +1039,75 @@ impl<'a> Gen<'a> {
         self.note_delivered(m);
     }
 
+    /// Saturation: every one of the 16 channels gets the same short prefix in a row (a number half,
+    /// a full number, a pending value byte, a CC14 MSB ...), then something global happens (reset,
+    /// a poll on every channel, nothing), then every channel is probed. "All slots in use at once"
+    /// is a state that independent talkers almost never produce.
+    fn emit_roll_call(&mut self) {
+        self.fire(F_ROLL_CALL, None);
+        let repr = self.repr();
+        let kind = self.r.below(6);
+        let mut order: Vec<u8> = (0..16).collect();
+        for i in 0..16 {
+            let j = i + self.r.below((16 - i) as u64) as usize;
+            order.swap(i, j);
+        }
+        let reg = self.r.chance(1, 2);
+        let (x, y) = if reg { (101u8, 100u8) } else { (99, 98) };
+        for &c in order.iter() {
+            let v = self.value7(c);
+            let w = self.value7(c);
+            let mut push = |cn: u8, val: u8| self.ev.push(Ev::Feed { b: [0xB0 | c, cn, val], repr });
+            match kind {
+                0 => push(x, v),
+                1 => {
+                    push(x, v);
+                    push(y, w);
+                }
+                2 => {
+                    push(y, w);
+                    push(x, v);
+                    push(6, v);
+                }
+                3 => {
+                    push(x, v);
+                    push(y, w);
+                    push(38, w);
+                }
+                4 => push(v % 32, w),
+                _ => {
+                    push(x, v);
+                    push(y, w);
+                    push(6, v);
+                    push(38, w);
+                }
+            }
+        }
+        match self.r.below(4) {
+            0 | 1 => {
+                self.ev.push(Ev::Reset);
+                self.inflight = [false; 16];
+            }
+            2 => {
+                self.ev.push(Ev::Adv { ns: self.cfg.timeout_ns });
+                for c in 0..16u8 {
+                    self.ev.push(Ev::Poll { ch: c });
+                }
+            }
+            _ => {}
+        }
+        // probe every channel: a value byte, then (later) a poll
+        for &c in order.iter() {
+            let cn = *self.r.pick(&[6u8, 38, 96, 6]);
+            let v = self.value7(c);
+            self.ev.push(Ev::Feed { b: [0xB0 | c, if kind == 4 { 32 + v % 32 } else { cn }, v], repr });
+        }
+        self.ev.push(Ev::Adv { ns: self.cfg.timeout_ns });
+        for c in 0..16u8 {
+            self.ev.push(Ev::Poll { ch: c });
+        }
+    }
+
     /// A pair (or selection + value) whose halves are separated by a long soak of unrelated
     /// activity: in-flight state must neither be lost nor resurrected by hundreds (thorough tier:
     /// 65536) of rounds of something else. Emitted as one block, straight into the trace.
@@ -1231,6 +1305,10 @@ impl<'a> Gen<'a> {
             match action {
                 Action::TalkerSend(ti) => {
                     let ch = chans[ti];
+                    if self.cfg.rate[F_ROLL_CALL] > 0 && self.r.chance(1, 12) {
+                        self.cfg.rate[F_ROLL_CALL] = 0; // once per run
+                        self.emit_roll_call();
+                    }
                     if self.cfg.rate[F_SOAK_LOOP] > 0 && self.soaks < 2 && self.r.chance(1, 40) {
                         self.soaks += 1;
                         self.emit_interrupted_pair(ch);
@@ -1378,6 +1456,10 @@ impl<'a> Gen<'a> {
             let c = chans[ti];
             let k = self.r.below(total);
             if k < w_feed {
+                if self.cfg.rate[F_ROLL_CALL] > 0 && self.r.chance(1, 12) {
+                    self.cfg.rate[F_ROLL_CALL] = 0; // once per run
+                    self.emit_roll_call();
+                }
                 if self.cfg.rate[F_SOAK_LOOP] > 0 && self.soaks < 2 && self.r.chance(1, 40) {
                     self.soaks += 1;
                     self.emit_interrupted_pair(c);
